@@ -2319,11 +2319,17 @@ impl Planner {
             join.conditions
                 .iter()
                 .filter_map(|cond| {
-                    // Try to extract column indices from expressions
-                    let left_idx = self.expression_to_column(&cond.left, &left_columns).ok()?;
-                    let right_idx = self
-                        .expression_to_column(&cond.right, &right_columns)
-                        .ok()?;
+                    // Try to extract column indices from expressions. An equality does not
+                    // care which of its two expressions is written first: `b = a` on
+                    // Join(a, b) is the same key pair as `a = b`.
+                    if let (Ok(left_idx), Ok(right_idx)) = (
+                        self.expression_to_column(&cond.left, &left_columns),
+                        self.expression_to_column(&cond.right, &right_columns),
+                    ) {
+                        return Some((left_idx, right_idx));
+                    }
+                    let left_idx = self.expression_to_column(&cond.right, &left_columns).ok()?;
+                    let right_idx = self.expression_to_column(&cond.left, &right_columns).ok()?;
                     Some((left_idx, right_idx))
                 })
                 .unzip()
